@@ -218,3 +218,253 @@ def check_C04(ctx, rep):
     rep.assumptions += ['f64::round and the float-to-int cast are not evaluated numerically (casts saturate by language definition)',
                         'Duration::from_micros of the caller\'s duration type is monotone']
     return 'who-may-write inventory of the action slots, translation table of schedule_action, clamp shape of the samplers, END absorbing guard'
+
+
+# =================================================================== C08
+
+def check_C08(ctx, rep):
+    pid = 'C08'
+    prog, an = ctx.prog, ctx.an
+    F = fw_fns(prog)
+    rep.rule('C08.R1', 'the counters are written only by update_counter (and initialised in new); on every path through the update of a '
+             'counter whose spec is present exactly one value is stored: saturating_add(old, change) for Increment, saturating_sub(old, change) '
+             'for Decrement, change for Set (exhaustive over Operation); the only store-free paths allowed are Increment/Decrement with change == 0')
+    rep.rule('C08.R2', 'change is the OTHER counter\'s value loaded before any counter store when spec.copy is true, else '
+             'Counter::sample_value of the same spec; sample_value returns 1 without a dist, else the sampled value through a saturating cast')
+    rep.rule('C08.R3', 'CounterZero is requested (flag local set) exactly under old != 0 && new == 0 && !zeroed_once[mi].k, together with '
+             'setting that same per-machine, per-counter flag; the recursive transition(mi, CounterZero) is guarded by that local')
+    rep.rule('C08.R4', 'the once-per-call flags are indexed by the machine index and distinct per counter; they are reset (fill) only in '
+             'trigger_events before any event is processed')
+    rep.rule('C08.R5', 'order: in transition update_counter runs before schedule_action and the schedule permission is '
+             'actions[mi].is_none() evaluated after the recursive CounterZero transition; without recursion it is (true, false)')
+    for name, fn in F.items():
+        fa = an.get(fn)
+        for fld in ('counter_a', 'counter_b'):
+            for (pe, v, site) in field_stores(fa, fld, 'MachineRuntime'):
+                rep.ob('C08.R1', fn, 'writer:' + fld, name in ('update_counter',), '%s written in %s' % (fld, name))
+    fn = F['update_counter']
+    fa = an.get(fn)
+    ops = prog.variants('maybenot::counter::Operation')
+    table = (('counter_a', '0', 'counter_b'), ('counter_b', '1', 'counter_a'))
+
+    def spec_of(e, k):
+        """e designates (state.counter.k as Some).0"""
+        e = unload(unwrap(e))
+        if e[0] == 'fld' and e[1][0] == 'var' and e[1][2] == 'Some':
+            b0 = unload(e[1][1])
+            return b0[0] == 'fld' and b0[3] == k and is_field(b0[1], 'counter', 'State')
+        return False
+
+    rs = lambda pe, val: is_field(pe, 'counter_a', 'MachineRuntime') or is_field(pe, 'counter_b', 'MachineRuntime')
+    pf = an.paths(fn, record_stores=rs, tag='counter-stores')
+    pfh = an.paths(fn, history=True)
+    # the local that requests CounterZero: condition guarding the recursive transition
+    rec_calls = [(b, f, args, t) for (b, f, args, t) in calls(fa) if callee_str(f).endswith('::transition')]
+    rep.count_exact('C08.R3', 'recursive transition call sites in update_counter', len(rec_calls), 1)
+    flag_local = None
+    for (b, f, args, t) in rec_calls:
+        ev = args[2]
+        rep.ob('C08.R3', fn, 'recursive-event-is-CounterZero', ev[0] == 'agg' and ev[2] == 'CounterZero' and args[1] == ('param', 2), 'transition(%s)' % ', '.join(show(a) for a in args[1:]))
+        # guarding local: the nearest dominating switch on a plain local
+        for d in sorted(fa.cfg.dom()[b], reverse=True):
+            t2 = fa.blocks[d]['t']
+            if t2['k'] == 'switch' and d != b:
+                pl = t2['d'].get('c') or t2['d'].get('m')
+                if pl is not None and not pl['pr']:
+                    # resolve copies
+                    l = pl['l']
+                    sd = fa.single_def(l)
+                    if sd is not None and sd[1] < len(fa.blocks[sd[0]]['s']):
+                        rv = fa.blocks[sd[0]]['s'][sd[1]]['rv']
+                        if rv['k'] == 'use' and ('c' in rv['x'] or 'm' in rv['x']) and not (rv['x'].get('c') or rv['x'].get('m'))['pr']:
+                            l = (rv['x'].get('c') or rv['x'].get('m'))['l']
+                    flag_local = l
+                    break
+    if flag_local is None:
+        rep.fail_closed('C08.R3', 'update_counter: local guarding the CounterZero recursion')
+        return ''
+    for (cf, k, other) in table:
+        sts = field_stores(fa, cf, 'MachineRuntime')
+        rep.count_floor('C08.R1', 'stores to %s' % cf, len(sts), len(ops))
+        old_self = None
+        for (pe, v, site) in sts:
+            ix, _ = idx_of(pe)
+            rep.ob('C08.R1', fn, '%s:index-is-own-machine' % cf, ix == ('param', 2), show(pe))
+            st = pf.at(site[0], site[1])
+            for S in st:
+                var = [f[2] for f in S if f[0] == 'variant' and f[2] in ops and spec_of(f[1][1] if f[1][0] == 'fld' and f[1][3] == 'operation' else ('x',), k)]
+                if not var:
+                    var = [f[2] for f in S if f[0] == 'variant' and f[2] in ops and contains(f[1], lambda x: isinstance(x, tuple) and x and x[0] == 'fld' and x[3] == k and is_field(x[1], 'counter', 'State'))]
+                if len(var) != 1:
+                    rep.ob('C08.R1', fn, '%s:store-without-operation' % cf, False, 'store of %s not under a single Operation variant: %s' % (shape(v), var))
+                    continue
+                op = var[0]
+                vv = v
+                if op == 'Increment':
+                    ok = is_call(vv, 'saturating_add') and is_field(vv[2][0], cf, 'MachineRuntime')
+                    chg = vv[2][1] if ok else None
+                elif op == 'Decrement':
+                    ok = is_call(vv, 'saturating_sub') and is_field(vv[2][0], cf, 'MachineRuntime')
+                    chg = vv[2][1] if ok else None
+                elif op == 'Set':
+                    ok = not is_call(vv, 'saturating_add') and not is_call(vv, 'saturating_sub')
+                    chg = vv
+                else:
+                    ok, chg = False, None
+                rep.ob('C08.R1', fn, '%s:%s:value' % (cf, op), ok, 'stores %s' % shape(v))
+                if chg is not None:
+                    alts = chg[1] if chg[0] == 'phi' else (chg,)
+                    okc = len(alts) == 2
+                    has_copy = has_sample = False
+                    for a in alts:
+                        if is_field(a, other, 'MachineRuntime') and idx_of(a)[0] == ('param', 2):
+                            has_copy = True
+                            # loaded before any counter store
+                            ls = a[2] if len(a) > 2 else None
+                            if ls is not None:
+                                store_blocks = {s2[0] for (p2, v2, s2) in field_stores(fa, 'counter_a', 'MachineRuntime') + field_stores(fa, 'counter_b', 'MachineRuntime')}
+                                pre = not any(fa.cfg.can_reach(sb, ls[0]) for sb in store_blocks)
+                                rep.ob('C08.R2', fn, '%s:copy-source-is-pre-update-value' % cf, pre, 'other counter loaded at a point no counter store can reach')
+                        elif is_call(a, '::sample_value') and spec_of(a[2][0], k):
+                            has_sample = True
+                        else:
+                            okc = False
+                    rep.ob('C08.R2', fn, '%s:%s:change-origin' % (cf, op), okc and has_copy and has_sample, 'change = %s' % shape(chg))
+        # every Operation variant has a store
+        # must-store: at the zero test (first switch on old != 0), each path that went through the Some(spec) edge has one store
+        # unless Increment/Decrement with change == 0
+        zero_tests = []
+        for (b, e) in switch_conditions(fa):
+            e2 = strip_sites(e)
+            if e2[0] == 'bin' and e2[1] in ('Ne', 'Eq') and is_field(e2[2], cf, 'MachineRuntime') and is_const(e2[3], 0):
+                ls = e[2][2] if len(e[2]) > 2 else None
+                # the OLD value: loaded before the stores
+                zero_tests.append((b, e))
+        old_tests = [(b, e) for (b, e) in zero_tests if not any(fa.cfg.can_reach(s2[0], e[2][2][0]) for (p2, v2, s2) in sts)]
+        rep.ob('C08.R3', fn, '%s:old-value-test-present' % cf, len(old_tests) == 1, 'tests of the pre-update value against 0: %d' % len(old_tests))
+        for (b, e) in old_tests:
+            for S in pf.at_entry(b):
+                has_spec = any(f[0] == 'variant' and f[2] == 'Some' and unload(f[1])[0] == 'fld' and unload(f[1])[3] == k and is_field(unload(f[1])[1], 'counter', 'State') for f in S)
+                if not has_spec:
+                    continue
+                stored = [f for f in S if f[0] == 'stored' and f[1] == ('maybenot::framework::MachineRuntime', cf)]
+                var = [f[2] for f in S if f[0] == 'variant' and f[2] in ops]
+                if stored:
+                    continue
+                # no store on this path: only allowed for Increment/Decrement with change == 0
+                zero_change = any(f[0] == 'cmp' and f[1] == 'eq' and f[5] and is_const(f[3], 0) for f in S)
+                ok = len(var) == 1 and var[0] in ('Increment', 'Decrement') and zero_change
+                rep.ob('C08.R1', fn, '%s:every-update-path-stores' % cf, ok, 'path through the %s update without a store: %s' % (cf, show_facts(S)))
+            rep.ob('C08.R1', fn, '%s:update-paths-checked' % cf, True, 'all paths from the spec to the zero test inspected')
+        # R3: stores of true to the flag local on the K side
+    # flag local stores
+    fl_defs = fa.defs().get(flag_local, [])
+    trues = []
+    for (b, k_, part) in fl_defs:
+        v = fa.def_value(flag_local, b, k_)
+        if is_const(v, 1):
+            trues.append((b, k_))
+        else:
+            rep.ob('C08.R3', fn, 'flag-local-initial-false', is_const(v, 0), 'assigned %s' % shape(v))
+    rep.count_exact('C08.R3', 'places requesting CounterZero', len(trues), 2)
+    seen_k = set()
+    for (b, k_) in trues:
+        st = pf.at(b, k_)
+        for S in st:
+            which = None
+            for (cf, k, other) in table:
+                oldnz = has_cmp(S, 'ne', lambda l: is_field(l, cf, 'MachineRuntime'), lambda r: is_const(r, 0), True)
+                newz = has_cmp(S, 'eq', lambda l: is_field(l, cf, 'MachineRuntime') or (unload(l)[0] == 'deref'), lambda r: is_const(r, 0), True)
+                flag = any(f[0] == 'btrue' and f[2] is False and unload(f[1])[0] == 'fld' and unload(f[1])[3] == k and
+                           idx_of(unload(f[1])[1])[0] == ('param', 2) and is_field(idx_of(unload(f[1])[1])[1], 'counter_zeroed_once', 'Framework') for f in S)
+                if flag:
+                    which = (cf, k, oldnz, newz)
+            if which is None:
+                rep.ob('C08.R3', fn, 'request-guarded-by-per-machine-flag', False, 'CounterZero requested without testing zeroed_once[mi].k: ' + show_facts(S))
+                continue
+            cf, k, oldnz, newz = which
+            seen_k.add(k)
+            rep.ob('C08.R3', fn, '%s:request-guard' % cf, oldnz and newz, 'old != 0: %s, new == 0: %s, flag %s false' % (oldnz, newz, k))
+            # the matching flag is set on the path to the join
+            sets = [s2 for (p2, v2, s2) in field_stores(fa, 'counter_zeroed_once.' + k, 'Framework') if is_const(v2, 1) and idx_of(p2)[0] == ('param', 2)]
+            if not sets:
+                sets = [s2 for (p2, v2, s2, mp) in stores(fa) if unload(p2)[0] == 'fld' and unload(p2)[3] == k and
+                        idx_of(unload(p2)[1])[0] == ('param', 2) and is_field(idx_of(unload(p2)[1])[1], 'counter_zeroed_once', 'Framework') and is_const(v2, 1)]
+            oks = any(s2[0] == b or (fa.cfg.dominates(b, s2[0]) and fa.cfg.can_reach(b, s2[0])) for s2 in sets)
+            # and the set happens on every path from the request to the recursion test
+            if oks and rec_calls:
+                lo, hi = count_between(fa, b, rec_calls[0][0], {s2[0] for s2 in sets})
+                oks = lo >= 1
+            rep.ob('C08.R3', fn, '%s:same-flag-set-with-request' % cf, oks, 'zeroed_once[mi].%s = true accompanies the request' % k)
+    rep.ob('C08.R4', fn, 'flags-distinct-per-counter', seen_k == {'0', '1'}, 'flags tested: %s' % sorted(seen_k))
+    # the test of new == 0 reads the stored counter (same place as the store)
+    # R4 flags writers
+    for name, f2 in F.items():
+        fa2 = an.get(f2)
+        for (pe, v, site, mp) in stores(fa2):
+            if contains(pe, lambda x: isinstance(x, tuple) and x and x[0] == 'fld' and x[3] == 'counter_zeroed_once'):
+                if name == 'new':
+                    continue
+                ok = name == 'update_counter' and is_const(v, 1) and idx_of(unload(pe)[1] if unload(pe)[0] == 'fld' else pe)[0] == ('param', 2)
+                rep.ob('C08.R4', f2, 'flag-write', ok, '%s = %s in %s' % (show(pe), shape(v), name))
+        for (b, f3, args, t) in calls(fa2):
+            if callee_str(f3).endswith('::fill') and args and contains(args[0], lambda x: isinstance(x, tuple) and x and x[0] == 'fld' and x[3] == 'counter_zeroed_once'):
+                okf = name == 'trigger_events' and args[1][0] == 'tuple' and all(is_const(x, 0) for x in args[1][2])
+                if okf:
+                    pe_calls = [b2 for (b2, f4, a4, t4) in calls(fa2) if callee_str(f4).endswith('::process_event') or callee_str(f4).endswith('::transition')]
+                    okf = bool(pe_calls) and all(fa2.cfg.dominates(b, b2) for b2 in pe_calls)
+                rep.ob('C08.R4', f2, 'flags-reset-first-in-trigger_events', okf, 'fill(%s)' % show(args[1]))
+    te = an.get(F['trigger_events'])
+    nfill = sum(1 for (b, f3, args, t) in calls(te) if callee_str(f3).endswith('::fill') and args and contains(args[0], lambda x: isinstance(x, tuple) and x and x[0] == 'fld' and x[3] == 'counter_zeroed_once'))
+    rep.count_exact('C08.R4', 'reset of the zeroed-once flags in trigger_events', nfill, 1)
+    # recursion guard
+    for (b, f, args, t) in rec_calls:
+        st = pfh.at_entry(b)
+        ok, w = all_paths(st, lambda S: any(f2[0] == 'btrue' and f2[2] is True and (f2[1] == ('load', ('local', flag_local)) or contains(f2[1], lambda x: x == ('const', 'bool', 'true'))) for f2 in S))
+        rep.ob('C08.R3', fn, 'recursion-guarded-by-request-flag', ok, '' if ok else show_facts(w))
+    # R5
+    tr = F['transition']
+    tfa = an.get(tr)
+    uc = [b for (b, f, a, t) in calls(tfa) if callee_str(f).endswith('::update_counter')]
+    sc = [b for (b, f, a, t) in calls(tfa) if callee_str(f).endswith('::schedule_action')]
+    rep.ob('C08.R5', tr, 'update_counter-before-schedule_action', len(uc) == 1 and len(sc) == 1 and tfa.cfg.dominates(uc[0], sc[0]) and uc[0] != sc[0], '')
+    for (b, f, a, t) in calls(tfa):
+        if callee_str(f).endswith('::update_counter'):
+            rep.ob('C08.R5', tr, 'update_counter-own-machine', a[1] == ('param', 2), '')
+    rets = ret_defs(fa)
+    for (b, k_, v) in rets:
+        if v[0] != 'tuple':
+            rep.ob('C08.R5', fn, 'return-shape', False, shape(v))
+            continue
+        e0, e1 = v[2][0], v[2][1]
+        after_rec = any(fa.cfg.dominates(rb, b) for (rb, f, a, t) in rec_calls)
+        if after_rec:
+            ok0 = is_call(e0, 'is_none') and contains(e0, lambda x: isinstance(x, tuple) and x and x[0] == 'idx' and x[2] == ('param', 2) and is_field(x[1], 'actions', 'Framework'))
+            # the is_none call happens after the recursion
+            isn = [b2 for (b2, f2, a2, t2) in calls(fa) if callee_str(f2).endswith('is_none')]
+            ok0 = ok0 and all(any(fa.cfg.dominates(rb, b2) and rb != b2 for (rb, f, a, t) in rec_calls) for b2 in isn)
+            rep.ob('C08.R5', fn, 'permission-read-after-CounterZero', ok0, 'allow = %s' % shape(e0))
+            ok1 = contains(e1, lambda x: is_call(x, '::transition')) and contains(e1, lambda x: isinstance(x, tuple) and x and x[0] == 'agg' and x[2] == 'Changed')
+            rep.ob('C08.R5', fn, 'state-changed-from-recursion-result', ok1, 'changed = %s' % shape(e1))
+        else:
+            rep.ob('C08.R5', fn, 'no-recursion-return', is_const(e0, 1) and is_const(e1, 0), 'returns %s' % shape(v))
+    rep.count_exact('C08.R5', 'returns of update_counter', len(rets), 2)
+    # sample_value
+    sv = prog.fn(FW, 'Counter', 'sample_value')
+    sva = an.get(sv)
+    svp = an.paths(sv)
+    for (b, k_, v) in ret_defs(sva):
+        for S in svp.at(b, k_):
+            none = any(f[0] == 'variant' and f[2] == 'None' for f in S)
+            if none:
+                rep.ob('C08.R2', sv, 'no-dist-means-one', is_const(v, 1), 'returns %s' % shape(v))
+            else:
+                ok = v[0] == 'cast' and v[1] == 'FloatToInt' and is_call(v[3], 'Dist::sample')
+                rep.ob('C08.R2', sv, 'dist-value-saturating-cast', ok, 'returns %s' % shape(v))
+    # no checked arithmetic on counters
+    for b in sorted(fa.cfg.reach):
+        t = fa.blocks[b]['t']
+        if t['k'] == 'assert' and t['mk'] == 'Overflow':
+            rep.ob('C08.R1', fn, 'no-overflowing-arithmetic', False, 'checked arithmetic in update_counter: %s' % t['msg'][:80])
+    rep.assumptions += ['every CFG path is treated as feasible', 'sampled magnitudes are not decided']
+    return 'operation table, copy/sample provenance, zero-detection guard and once-per-call flags of update_counter'
